@@ -69,4 +69,49 @@ def scanImports (root : Comp) (entries : List SEntry) (mp : List Comp) : Option 
       | none => none
       | some ts => some (acc2 ++ (ts.filter fun t => inside.contains t && t != importer).map fun t => (importer, t))) acc) []
 
+/-! ### the statements of a file (audit finding F1)
+
+  "Every import statement in a scanned file, whether at module level or nested at any depth inside functions, classes
+  or any branch of any compound statement (if/else, try/except/else/finally, loops and their else, with, match cases)":
+  a file is a tree of statements; a compound statement, function or class holds its sub-statements in one or several
+  fields (`body`, `orelse`, `finalbody`, `handlers` → `body`, `cases` → `body`, …). The statements of the file are
+  ALL import nodes of that tree — at whatever depth and in whatever field of whatever node they sit; neither the
+  field name nor the class of the enclosing nodes plays any role. -/
+
+inductive SKind
+  | imp (names : List Name)                                          -- import a.b.c [as x], ...
+  | impFrom (module : Option Name) (names : List Comp) (level : Nat) -- from [..]P import n, ...
+  | other                     -- anything else: compound statement, def, class, except handler, match case, …
+deriving Repr
+
+/-- a node of the statement tree: its position (child indices from the module node, `[]` for the module itself) and
+    the name of the parent's field it sits in (recorded only to say that it does not matter) -/
+structure SNode where
+  path : List Nat
+  field : Comp
+  kind : SKind
+deriving Repr
+
+def SNode.stmt? (n : SNode) : Option SStmt :=
+  match n.kind with
+  | .imp names => some (.imp names)
+  | .impFrom m names level => some (.impFrom m names level)
+  | .other => none
+
+/-- every import statement of the file -/
+def allImports (nodes : List SNode) : List SStmt := nodes.filterMap SNode.stmt?
+
+def nodupP : List (List Nat) → Bool
+  | [] => true
+  | x :: xs => !xs.contains x && nodupP xs
+
+/-- the node list is a tree: positions are unique, every node but the module node has its parent in the list, and
+    no import statement lies below an import statement (an import statement has no sub-statements; a listing of the
+    complete AST hangs the statement's `alias` nodes below it, which is fine) -/
+def treeOK (nodes : List SNode) : Bool :=
+  nodupP (nodes.map (·.path)) &&
+  (nodes.all fun n => n.path.isEmpty || nodes.any fun m => m.path == n.path.dropLast) &&
+  (nodes.all fun n => n.stmt?.isNone ||
+    nodes.all fun m => !(n.path.isPrefixOf m.path && m.path != n.path) || m.stmt?.isNone)
+
 end PtaSpec
